@@ -2,7 +2,12 @@ CHECK = dict(
     level='model_checking', engine='vsched',
     parts=[dict(name='c05', src=['harness/c05_ringbuf.c'], workers=64,
                 objs=[('@VERIF@/harness/c05_scn.c', ['-fsanitize=thread'])],
-                deadline=dict(quick=120, thorough=1500))],
+                deadline=dict(quick=120, thorough=1500)),
+           # sequential family (harness/c05_seq.c): cheap, so it runs on every build variant and under AddressSanitizer
+           dict(name='c05seq', src=['harness/c05_seq.c'], lib=['ringbuf.c'], workers=16, deadline=dict(quick=120, thorough=600)),
+           dict(name='c05seqasan', variant='gcc -O1 AddressSanitizer', src=['harness/c05_seq.c'], lib=['ringbuf.c'], workers=16,
+                cflags=['-O1', '-fsanitize=address', '-fsanitize-recover=address', '-fno-omit-frame-pointer', '-DC05_ASAN'],
+                deadline=dict(quick=240, thorough=600))],
     rule='stateless exploration of every schedule of the real ringbuf.c (compiled with -fsanitize=thread against the '
          'replacement runtime engine/vsched.c: a scheduling point before every atomic operation, interrupt handlers injected '
          'as nested run-to-completion calls, spins made blocking), depth-first over choice sequences with a visited set of '
@@ -22,3 +27,8 @@ CHECK = dict(
     level_note='Trusted: engine/vsched.c (scheduler, TSan-ABI runtime), the ghost FIFO oracle, gcc -fsanitize=thread instrumentation.',
     design_ref='DESIGN.md sections 2.2 and 4 (C05)',
 )
+
+# build variants (bin/checks.py): only -DNDEBUG (side effects inside assert) - the schedule exploration is too expensive to repeat on every build
+CHECK['variants'] = [('c05', ['gcc -O2 -DNDEBUG']), 'c05seq']
+CHECK['variant_tiers'] = {'gcc -O2 -DNDEBUG': ('quick', 'thorough')}
+CHECK['variant_unsigned_char'] = True
